@@ -156,6 +156,23 @@ def is_plain_function(obj):
     return True
 
 
+UNHASHABLE_MECH = 'unhashable-callable-cannot-key-provenance'
+
+
+def unhashable(obj):
+    """Mechanism predicate of the open finding: the callable itself (or the callable a
+    partial wraps) cannot be hashed, so it cannot be a key of sources['+depths']."""
+    seen = 0
+    while obj is not None and seen < 5:
+        seen += 1
+        try:
+            hash(obj)
+        except TypeError:
+            return True
+        obj = getattr(obj, 'func', None) if isinstance(obj, functools.partial) else None
+    return False
+
+
 def check_callable(ctx, dotted, what, obj, sphinx=True, rp=None):
     import sigtools
     from sigtools import signatures, _signatures
@@ -186,6 +203,10 @@ def check_callable(ctx, dotted, what, obj, sphinx=True, rp=None):
                 elif fabricates_attributes(obj):
                     ctx.violation('C07', 'Totality', FABRICATE_MECH,
                                   'an object that answers every attribute lookup makes retrieval raise', dict(w, retrieval=label, exception=repr(e)[:200]), rp)
+                elif isinstance(e, TypeError) and unhashable(obj) and 'unhashable' in str(e):
+                    ctx.violation('C07', 'Totality', UNHASHABLE_MECH,
+                                  'an unhashable callable cannot be a key of the provenance maps: retrieval raises TypeError',
+                                  dict(w, retrieval=label, exception=repr(e)[:200]), rp)
                 else:
                     V('raises-%s-where-inspect-succeeds' % type(e).__name__,
                       '%s raised %s although inspect.signature succeeds' % (label, type(e).__name__),
@@ -368,6 +389,25 @@ ADVERSARIAL = [
     ('staticmethod-classmethod', 'class K(object):\n    @staticmethod\n    def s(*args, **kwargs): return target(*args, **kwargs)\n    @classmethod\n    def c(cls, *args, **kwargs): return target(*args, **kwargs)\nf = K.s\nf2 = K.c\nf3 = K().c\nf4 = K.__dict__["s"]\nf5 = K.__dict__["c"]'),
     ('property-and-slots', 'class K(object):\n    __slots__ = ("v",)\n    @property\n    def p(self): return target\n    def __call__(self, *args, **kwargs): return self.p(*args, **kwargs)\nf = K()'),
     ('metaclass-call', 'class M(type):\n    def __call__(cls, *args, **kwargs): return super().__call__(*args, **kwargs)\nclass K(metaclass=M):\n    def __init__(self, x, y=1): pass\nf = K'),
+    ('body-builds-partial-from-stars-only', 'def f(*args, **kwargs):\n    return functools.partial(*args, **kwargs)'),
+    ('body-builds-partial-from-stars-only-imported-name', 'from functools import partial\ndef f(a, *args, **kwargs):\n    return partial(*args)'),
+    ('body-builds-partial-of-param', 'def f(fn, *args, **kwargs):\n    return functools.partial(fn, *args, **kwargs)\nf2 = functools.partial(f, target)\nf3 = functools.partial(f, 5)'),
+    ('partial-of-forwarder-unknown-keyword', 'def fwd(a, *args, **kwargs): return target(*args, **kwargs)\nf = functools.partial(fwd, zq=1)\nf2 = functools.partial(fwd, 0, zq=1)\nf3 = functools.partial(fwd, a=0)'),
+    ('partial-of-forwarder-too-many-positionals', 'def fwd(a, *args, **kwargs): return target(*args, **kwargs)\nf = functools.partial(fwd, 1, 2, 3, 4)\nf2 = functools.partial(fwd, 1, 2, 3, 4, 5, z=1)'),
+    ('partial-of-forwarder-duplicate', 'def fwd(a, *args, **kwargs): return target(*args, **kwargs)\nf = functools.partial(fwd, 1, 2, x=3)\nf2 = functools.partial(functools.partial(fwd, 1, 2), x=3)'),
+    ('partial-with-too-many-positionals-no-varargs', 'def h(a, **kwargs): return target(**kwargs)\nf = functools.partial(h, 1, 2)\ndef h2(a): return None\nf2 = functools.partial(h2, 1, 2)\nf3 = functools.partial(h2, b=1)'),
+    ('partial-of-partial-of-forwarder', 'def fwd(a, *args, **kwargs): return target(*args, **kwargs)\nf = functools.partial(functools.partial(fwd, 1), 2, z=3)\nf2 = functools.partial(functools.partial(fwd, z=3), z=4)'),
+    ('bound-method-stars-only', 'def kwo(*, k): return None\nclass K(object):\n    def m(*args, **kwargs): return kwo(**kwargs)\n    def n(*args, **kwargs): return target(*args, **kwargs)\nf = K().m\nf2 = K().n\nf3 = K.m'),
+    ('unhashable-callable-instance', 'class K(object):\n    __hash__ = None\n    def __call__(self, a): return None\nf = K()'),
+    ('unhashable-callable-instance-forwarding', 'class K(object):\n    def __eq__(self, other): return True\n    def __call__(self, a, *args, **kwargs): return target(*args, **kwargs)\nf = K()'),
+    ('callable-instance-in-partial', 'class K(object):\n    def __call__(self, a, *args, **kwargs): return target(*args, **kwargs)\nf = functools.partial(K(), 1)\nf2 = functools.partial(K(), 1, 2, 3, 4)'),
+    ('partialmethod', 'class K(object):\n    def m(self, a, *args, **kwargs): return target(*args, **kwargs)\n    pm = functools.partialmethod(m, 1)\n    pm2 = functools.partialmethod(m, 1, 2, 3, 4)\nf = K().pm\nf2 = K.pm\nf3 = K().pm2'),
+    ('singledispatch-and-cache', '@functools.singledispatch\ndef f(a, *args, **kwargs): return target(*args, **kwargs)\n@functools.cache\ndef f2(a, *args, **kwargs): return target(*args, **kwargs)'),
+    ('class-forwarding-init', 'class B(object):\n    def __init__(self, x, y=1): pass\nclass K(B):\n    def __init__(self, a, *args, **kwargs): super().__init__(*args, **kwargs)\nf = K\nclass K2(B):\n    def __new__(cls, *args, **kwargs): return super().__new__(cls)\nf2 = K2'),
+    ('callee-needs-nothing-but-gets-positional', 'def nothing(): return None\ndef f(a, *args, **kwargs):\n    return nothing(1, *args, **kwargs)\ndef f2(a, *args, **kwargs):\n    return nothing(*args, q=1, **kwargs)'),
+    ('two-incompatible-callees', 'def c1(x, /): return None\ndef c2(*, x): return None\ndef f(*args, **kwargs):\n    c1(*args, **kwargs)\n    return c2(*args, **kwargs)'),
+    ('forwarding-to-own-parameter-default', 'def f(a, *args, fn=target, **kwargs):\n    return fn(*args, **kwargs)\nf2 = functools.partial(f, 1)\nf3 = functools.partial(f, 1, fn=sink)'),
+    ('annotation-unevaluable-postponed', 'from __future__ import annotations\ndef callee(x: NotDefinedAnywhere, y: AlsoNot = 1) -> Nope: return None\ndef f(a, *args, **kwargs):\n    return callee(*args, **kwargs)\ndef f2(a, *args, **kwargs):\n    return callee(0, *args, y=2, **kwargs)\ndef f3(a, *args, **kwargs):\n    return callee(*args, y=2, **kwargs)'),
     ('exec-defined-no-source', None),
     ('builtins', None),
 ]
